@@ -46,7 +46,7 @@ def main():
     for f in sorted(os.listdir(os.path.join(spec, 'pools'))):
         if f.endswith('.json'):
             module = 'Docs' + f[:-5]
-            out = gen_pool(os.path.join(spec, 'pools', f), module)
+            out = gen_pool(os.path.join(spec, 'pools', f), module, 'Pool' + f[:-5])
             dst = os.path.join(spec, module + '.tla')
             if not os.path.exists(dst) or open(dst).read() != out:
                 open(dst, 'w').write(out)
